@@ -33,9 +33,14 @@ for d in sorted(glob.glob(os.path.join(V, "seeded", "C*-*"))):
             pass
     meta["detected_by"] = {"check": "./check %s --tier quick" % prop, "exit_code": p.returncode, "violation_lines": len(viol),
                            "no_failing_input_found": any("no-failing-input-found" in l for l in viol), "first_replay": what, "summary": out[-1] if out else ""}
-    json.dump(meta, open(os.path.join(d, "meta.json"), "w"), indent=1)
+    if not os.environ.get("SEEDED_DRY"):
+        json.dump(meta, open(os.path.join(d, "meta.json"), "w"), indent=1)
     rows.append((mid, prop, p.returncode, len(viol), out[-1] if out else ""))
     print(mid, "exit", p.returncode, "violations", len(viol), flush=True)
+if os.environ.get("SEEDED_DRY"):
+    # a robustness run (e.g. under another VERIF_SEED): report, record nothing
+    print("dry run: detected", sum(1 for r in rows if r[2] == 1), "of", len(rows), "missed:", [r[0] for r in rows if r[2] != 1])
+    sys.exit(0)
 # the table always reflects every meta.json (a partial run refreshes only its own rows)
 table = []
 for d in sorted(glob.glob(os.path.join(V, "seeded", "C*-*"))):
